@@ -607,8 +607,9 @@ def run_editor(ctx, cov):
         x = ec["differences"][0]
         ctx.note("the console's line editor differs from ConsoleEdit.tla on %d of %d executions (editing keys are outside what C20 "
                  "quantifies over: reported, not a verdict); shortest: keys %s -> line %r cursor %s handed %r, specification: line %r "
-                 "cursor %s handed %r" % (summary["differing"], summary["executions"], x["keys"], x["line_observed"], x["cursor_observed"],
-                                          x["handed_observed"], x["line_expected"], x["cursor_expected"], x["handed_expected"]))
+                 "cursor %s handed %r%s" % (summary["differing"], summary["executions"], x["keys"], x["line_observed"], x["cursor_observed"],
+                                            x["handed_observed"], x["line_expected"], x["cursor_expected"], x["handed_expected"],
+                                            (" (%s)" % x["error"]) if x["error"] else ""))
 
 
 def new_cov():
